@@ -2,7 +2,7 @@
 Require Extraction.
 Require Import ExtrOcamlBasic.
 From Coq Require Import ZArith NArith.
-From Astisub Require Import Kit.Base Kit.Str Kit.Float64 Kit.Scan Kit.Html Model.Ops Model.Dur Model.Lin Model.Srt Model.Files Model.Vtt Model.Conv.
+From Astisub Require Import Kit.Base Kit.Str Kit.Float64 Kit.Scan Kit.Html Model.Ops Model.Dur Model.Lin Model.Srt Model.Files Model.Vtt Model.Conv Model.Ssa.
 Extraction "model.ml"
   Z.add Z.mul Z.opp Z.div Z.modulo Z.of_N Z.to_N N.add N.mul
   order merge add_dur force_duration fragment unfragment optimize remove_styling item_text
@@ -13,4 +13,7 @@ Extraction "model.ml"
   read_srt read_srt_lines write_srt parse_text_srt escape_html unescape_html
   reader_for writer_for
   read_vtt write_vtt parse_text_vtt vtt_line_simple
-  convert_srt_vtt convert_vtt_srt.
+  convert_srt_vtt convert_vtt_srt
+  read_ssa read_ssa_lines write_ssa write_ssa_chunks style_keys style_from_string style_string event_from_string event_string
+  find_sattr sattrs_all find_eattr eattrs_all parse_color format_color parse_bool parse_float3 format_float3 format_float_short
+  parse_time text_lines item_text_ssa item_name event_item event_of_item info_parse info_bytes segments.
